@@ -19,6 +19,7 @@ import (
 	_ "verif/htlab/internal/props/c15"
 	_ "verif/htlab/internal/props/c16"
 	_ "verif/htlab/internal/props/c17"
+	_ "verif/htlab/internal/props/c18"
 	_ "verif/htlab/internal/props/c19"
 	_ "verif/htlab/internal/props/c20"
 )
